@@ -384,8 +384,27 @@ def _sampling_rules(ck, repo, nf):
     ck.need(len(rets) == 1, f"{CQ}._sample_idx: {len(rets)} returns (unrecognised idiom)")
     s2 = Scope(c2, mi, {p: Poly.atom(p, {p}, {p}) for p in positional_params(f2)}, CQ + "._sample_idx")
     got = nf.poly(rets[0].ast.value, s2, rets[0].id).canon()
+    # the documented draw, in the spellings numpy offers for "indices of the non-zero entries", "their number" and "element i of"
+    pp_ = [p_ for p_ in positional_params(f2) if p_ != "self"]
+    B_, R_ = (pp_ + ["batch_size", "rng"])[:2]
+    sets_ = ["np.nonzero(self.mask_)[0]", "np.flatnonzero(self.mask_)", "np.where(self.mask_)[0]", "np.where(self.mask_ != 0)[0]", "np.flatnonzero(self.mask_ != 0)", "np.nonzero(self.mask_ != 0)[0]", "np.where(self.mask_ > 0)[0]", "np.flatnonzero(self.mask_ > 0)"]
+    wants = set()
+    sc_w = Scope(None, mi, s2.env, CQ + "._sample_idx")
+    for E_ in sets_:
+        for N_ in (f"len({E_})", f"{E_}.size", f"{E_}.shape[0]"):
+            for draw in (f"{R_}.integers(0, {N_}, size={B_})", f"{R_}.integers(0, {N_}, {B_})", f"{R_}.integers({N_}, size={B_})", f"{R_}.integers(low=0, high={N_}, size={B_})"):
+                for form in (f"{E_}[{draw}]", f"np.take({E_}, {draw})", f"{E_}.take({draw})"):
+                    try:
+                        wants.add(nf.poly(parse_expr(form), sc_w, None).canon())
+                    except Exception:
+                        pass
+        for form in (f"{R_}.choice({E_}, size={B_})", f"{R_}.choice({E_}, {B_})", f"{R_}.choice({E_}, size={B_}, replace=True)"):
+            try:
+                wants.add(nf.poly(parse_expr(form), sc_w, None).canon())
+            except Exception:
+                pass
     want = "nonzero(self.mask_)[0][rng.integers(0, len(nonzero(self.mask_)[0]), size=batch_size)]"
-    if got == want:
+    if got == want or got in wants:
         ck.ob("R4-start-from-mask", CQ + "._sample_idx", "uniform-over-enabled", True, f"return {got}", "", loc(mi, f2))
     else:
         # a cached / derived attribute instead of the live mask? then every writer of mask_ must refresh it (derived-state coherence)
